@@ -30,6 +30,20 @@ CLAIMED = {
                  "filler's postcondition; segments' ring-difference intervals disjoint and increasing with the segment number (established by the constructors, assumed); "
                  "per-segment values |.|<2^15; N, view mashing, TOF mashing factor and ring-pair count are swept as constants"),
     },
+    "C10": {
+        "text": ("partial - the quantisation core of scaled integer output (convert_range.inl; input float, scale factor float; one complete proof per "
+                 "output type signed/unsigned char, short, unsigned short, int, unsigned int; every float bit pattern of the data's largest, smallest and "
+                 "any value in between; two sub-domains: extremes zero or >= 1e-30 in magnitude, and the rest): (a) find_scale_factor (statement "
+                 "kernel) returns a finite factor with which the largest and the smallest value fit the output type with the code's margin; factor 0 "
+                 "(everything written as 0) only for all-zero data (or all non-positive data for unsigned output); a negative factor only for all-negative "
+                 "data written to an unsigned type; (b) composition of the real find_scale_factor and the real per-element statement of convert_range "
+                 "(nothing replaced, loop-free): no conversion in the element statement overflows - 'never overflows the chosen type' - and negatives "
+                 "written to an unsigned type become 0; (c) stir::round(float) is within half a unit for |x| < 2^23. Not decided: the read-back accuracy "
+                 "'within half a quantisation step' (needs the IEEE error bound of the float division: solver time-out, argued in DESIGN.md), voxel "
+                 "positions, headers, exam information, byte order, truncated files, dynamic/parametric containers."),
+        "note": ("trusted: cbmc 6.11.0 MiniSat with its IEEE-754 float model and its floor() model; std::max_element/min_element deliver the extreme values; "
+                 "element type float, scale type float"),
+    },
     "C11": {
         "text": ("partial - clauses decided: VectorWithOffset<T> representation invariant preserved and abstract view (index range + "
                  "every element via a ghost index) specified for each operation under contract; out-of-range at() and "
@@ -97,7 +111,7 @@ CLAIMED = {
 
 _PENDING = "claimed in DESIGN.md but the check is not built yet in this commit; will move to checks when it exists"
 NOT_APPLICABLE = {
-    "C08": _PENDING, "C10": _PENDING, "C20": _PENDING,
+    "C08": _PENDING, "C20": _PENDING,
     "C04": "linearity/adjointness/additivity are equalities up to floating-point reassociation between long accumulations through virtual projector classes; bit-precise CBMC cannot state 'up to rounding' compositionally nor close the Siddon/interpolation loops; no leaf contract decides it",
     "C05": "value/gradient/Hessian are float sums over all bins with log(), reached only through virtual objective-function/projector objects; CBMC's libm model leaves log unconstrained; element-wise kernels do not decide the textbook equality",
     "C07": "EM update is spread over array expressions, back projection and sensitivity caches behind virtual calls; monotonicity/count preservation are real-analysis facts that do not survive bit-precise float semantics; the schedule part of restartability is decided under C06",
